@@ -122,23 +122,39 @@ func RunIsolated(in Sx) (Sx, []string) {
 // scenario it was running is recorded as crashed and the rest continues in a new child.
 func RunBatch(ins []Sx) []Result {
 	res := make([]Result, len(ins))
-	if os.Getenv("CONNSIM_INPROCESS") != "" {
-		for i, in := range ins {
-			o, n := RunAny(in)
-			res[i] = Result{o, n}
+	RunStream(ins, 0, func(i int, r Result) { res[i] = r })
+	for i := range res {
+		if res[i].Obs.Kind == 0 {
+			res[i] = Result{timeoutObservation(ins[i]), []string{"not run: the generator's time budget was used up"}}
 		}
-		return res
 	}
+	return res
+}
+
+// scenarioLimit: no scenario may take longer than this (a stuck connection costs seconds; the
+// child is killed and the scenario recorded as inconclusive)
+func scenarioLimit(fast bool) time.Duration {
+	if fast {
+		return 25 * time.Second
+	}
+	return 60 * time.Second
+}
+
+// RunStream runs the scenarios in child processes (two at a time, several scenarios per
+// child) and calls emit(i, result) as soon as scenario i has completed (from several
+// goroutines).  budget > 0: no new child is started after that much time; the number of
+// scenarios that were not run is returned.
+func RunStream(ins []Sx, budget time.Duration, emit func(i int, r Result)) (notRun int) {
+	start := time.Now()
+	inproc := os.Getenv("CONNSIM_INPROCESS") != ""
 	exe, err := os.Executable()
-	if err != nil {
+	if inproc || err != nil {
 		for i, in := range ins {
 			o, n := RunAny(in)
-			res[i] = Result{o, n}
+			emit(i, Result{o, n})
 		}
-		return res
+		return 0
 	}
-	// two children at a time (gated scenarios are latency-bound, not CPU-bound); the scenarios of
-	// a batch run in order inside their child
 	const batch = 8
 	type span struct{ from, to int }
 	var spans []span
@@ -168,32 +184,40 @@ func RunBatch(ins []Sx) []Result {
 			for sp := range work {
 				next := sp.from
 				for next < sp.to {
-					// several scenarios already ran into deadlines (stuck / inconclusive): do not let the
-					// rest of the run spend the whole budget waiting — shorter deadlines (they only ever
-					// turn an observation into "inconclusive", never into a finding)
+					if budget > 0 && time.Since(start) > budget {
+						mu.Lock()
+						notRun += sp.to - next
+						mu.Unlock()
+						break
+					}
+					// several scenarios already ran into deadlines (stuck / inconclusive): shorter deadlines
+					// for the rest (they only ever turn an observation into "inconclusive", never into a finding)
 					mu.Lock()
 					fast := troubled >= 4
 					mu.Unlock()
-					got, crashNote, timedOut, bye := runChild(exe, ins[next:sp.to], fast)
-					for k, r := range got {
-						res[next+k] = r
+					base := next
+					n, crashNote, timedOut, bye := runChild(exe, ins[next:sp.to], fast, func(k int, r Result) {
 						if len(r.Notes) > 0 {
 							mu.Lock()
 							troubled++
 							mu.Unlock()
 						}
-					}
-					next += len(got)
-					if next < sp.to && bye && len(got) > 0 {
+						emit(base+k, r)
+					})
+					next += n
+					if next < sp.to && bye && n > 0 {
 						continue // the child left voluntarily after a stuck / inconclusive scenario
 					}
 					if next < sp.to {
 						// the child stopped inside scenario `next`
 						if timedOut {
-							res[next] = Result{timeoutObservation(ins[next]), []string{"scenario process killed after the deadline"}}
+							emit(next, Result{timeoutObservation(ins[next]), []string{"scenario process killed: no result within the per-scenario limit"}})
 						} else {
-							res[next] = Result{crashObservation(ins[next]), []string{crashNote}}
+							emit(next, Result{crashObservation(ins[next]), []string{crashNote}})
 						}
+						mu.Lock()
+						troubled++
+						mu.Unlock()
 						next++
 					}
 				}
@@ -201,10 +225,12 @@ func RunBatch(ins []Sx) []Result {
 		}()
 	}
 	wg.Wait()
-	return res
+	return notRun
 }
 
-func runChild(exe string, ins []Sx, fast bool) (got []Result, crashNote string, timedOut bool, bye bool) {
+// runChild: one child process for the given scenarios; results are emitted as they arrive on
+// its stdout; a scenario that produces no result within the limit gets the child killed.
+func runChild(exe string, ins []Sx, fast bool, emit func(k int, r Result)) (n int, crashNote string, timedOut bool, bye bool) {
 	var input strings.Builder
 	for _, in := range ins {
 		input.WriteString(in.String())
@@ -216,42 +242,66 @@ func runChild(exe string, ins []Sx, fast bool) (got []Result, crashNote string, 
 		cmd.Env = append(cmd.Env, "CONNSIM_FAST=1")
 	}
 	cmd.Stdin = strings.NewReader(input.String())
-	var stdout, stderr bytes.Buffer
-	cmd.Stdout = &stdout
+	var stderr bytes.Buffer
 	cmd.Stderr = &stderr
-	if err := cmd.Start(); err != nil {
-		for _, in := range ins {
-			o, n := RunAny(in)
-			got = append(got, Result{o, n})
+	stdout, err := cmd.StdoutPipe()
+	if err != nil || cmd.Start() != nil {
+		for k, in := range ins {
+			o, nn := RunAny(in)
+			emit(k, Result{o, nn})
 		}
-		return
+		return len(ins), "", false, false
 	}
-	done := make(chan error, 1)
-	go func() { done <- cmd.Wait() }()
-	select {
-	case <-done:
-	case <-time.After(time.Duration(60+120*len(ins)) * time.Second):
-		cmd.Process.Kill()
-		<-done
-		timedOut = true
-	}
+	lines := make(chan string, 64)
+	go func() {
+		sc := bufio.NewScanner(stdout)
+		sc.Buffer(make([]byte, 1<<20), 1<<28)
+		for sc.Scan() {
+			lines <- sc.Text()
+		}
+		close(lines)
+	}()
 	var notes []string
-	sc := bufio.NewScanner(&stdout)
-	sc.Buffer(make([]byte, 1<<20), 1<<28)
-	for sc.Scan() {
-		l := sc.Text()
-		if l == "BYE" {
-			bye = true
-		} else if strings.HasPrefix(l, "NOTE ") {
-			notes = append(notes, l[5:])
-		} else if strings.HasPrefix(l, "OBS ") {
-			if v, err := Parse(l[4:]); err == nil {
-				got = append(got, Result{v, notes})
-				notes = nil
+	limit := scenarioLimit(fast)
+	timer := time.NewTimer(limit)
+	defer timer.Stop()
+loop:
+	for {
+		select {
+		case l, ok := <-lines:
+			if !ok {
+				break loop
 			}
+			if l == "BYE" {
+				bye = true
+			} else if strings.HasPrefix(l, "NOTE ") {
+				notes = append(notes, l[5:])
+			} else if strings.HasPrefix(l, "OBS ") {
+				if v, err := Parse(l[4:]); err == nil {
+					emit(n, Result{v, notes})
+					n++
+					notes = nil
+					if !timer.Stop() {
+						select {
+						case <-timer.C:
+						default:
+						}
+					}
+					timer.Reset(limit)
+				}
+			}
+		case <-timer.C:
+			timedOut = true
+			cmd.Process.Kill()
+			break loop
 		}
 	}
-	if len(got) < len(ins) && !timedOut {
+	go func() { // drain whatever is left so that the reader goroutine ends
+		for range lines {
+		}
+	}()
+	cmd.Wait()
+	if n < len(ins) && !timedOut && !bye {
 		first, where := "", ""
 		for _, l := range strings.Split(stderr.String(), "\n") {
 			if first == "" && (strings.HasPrefix(l, "panic:") || strings.HasPrefix(l, "fatal error:")) {
